@@ -3,6 +3,8 @@ package stateworld
 import (
 	"fmt"
 	"math/big"
+	"sort"
+	"strings"
 
 	"verifsim/kit"
 
@@ -13,7 +15,42 @@ import (
 	"github.com/youchainhq/go-youchain/params"
 )
 
-// Mutator applies seeded mutations to a StateDB using only the call patterns production code
+// Op is one recorded mutation with concrete arguments. Gen* functions draw every decision from
+// the chooser while looking at the state under test and return an Op; Apply performs it. An Op
+// can be re-applied to another state (C10: copies, regrouped and permuted rebuilds). Apply reads
+// the state only inside the Op's footprint, so two Ops with disjoint footprints commute.
+type Op struct {
+	Name string   // abstract name (fingerprint token)
+	Desc string   // trace text with the concrete arguments
+	Foot []string // footprint keys ("acct:A1", "val:V2", "queue", "srec:…", "pendingr", "refund", "statrew")
+	// Apply performs the mutation and returns an abstract outcome ("" = nothing to add).
+	// nil = the generator found nothing to do (no-op).
+	Apply func(st *state.StateDB) string
+	// Ctl marks the two control steps a recorded plan may contain besides mutations:
+	// "snap" (Snapshot) and "revert" (RevertToSnapshot of the Arg-th open snapshot).
+	Ctl string
+	Arg int
+}
+
+// Conflicts reports whether two ops share a footprint key (then their relative order matters).
+func (o *Op) Conflicts(p *Op) bool {
+	for _, a := range o.Foot {
+		for _, b := range p.Foot {
+			if a == b || a == "*" || b == "*" {
+				return true
+			}
+			// "val:*" = every validator
+			if (a == "val:*" && strings.HasPrefix(b, "val:")) || (b == "val:*" && strings.HasPrefix(a, "val:")) {
+				return true
+			}
+		}
+	}
+	return false
+}
+
+func noop(name string) *Op { return &Op{Name: name} }
+
+// Mutator generates seeded mutations of a StateDB using only the call patterns production code
 // uses. Each generator names the call site it imitates.
 type Mutator struct {
 	r         *kit.Run
@@ -26,6 +63,14 @@ type Mutator struct {
 	AllowStakingRecords bool
 	// ValidatorWeight scales how often validator-side mutations are drawn (0 = never).
 	ValidatorWeight int
+	// AccountWeight scales the account-side mutations (default 1 when zero and !NoAccounts).
+	AccountWeight int
+	// NoContracts drops code/storage/suicide/create-account operations (C08 is about validators
+	// and delegator accounts; contract storage is C09/C10 matter).
+	NoContracts bool
+	// BigCodes makes SetCode choose among large (24 KiB) distinct code blobs too, so that a
+	// TrieDB().Commit spans several disk batches (C10 crash points).
+	BigCodes bool
 }
 
 func tokens(n int64) *big.Int { return new(big.Int).Mul(big.NewInt(n), params.StakeUint) }
@@ -62,141 +107,234 @@ func existingValidators(st *state.StateDB) []*state.Validator {
 	return st.GetValidatorsForUpdate()
 }
 
-// Step applies one mutation and returns its abstract name (for fingerprints).
+func acctKey(a common.Address) string { return "acct:" + nm(a) }
+func valKeyOf(a common.Address) string { return "val:" + nm(a) }
+
+// Step generates one mutation, applies it and returns its abstract name (for fingerprints).
 func (m *Mutator) Step(st *state.StateDB) string {
+	return m.Run(m.Gen(st), st)
+}
+
+// Run applies a recorded op to st, logs it and returns the fingerprint token.
+func (m *Mutator) Run(op *Op, st *state.StateDB) string { return m.RunAs("", op, st) }
+
+// RunAs is Run with a prefix on the trace line (which of several states the op was applied to).
+func (m *Mutator) RunAs(who string, op *Op, st *state.StateDB) string {
+	if op.Apply == nil {
+		return op.Name
+	}
+	out := op.Apply(st)
+	if out == "" {
+		m.r.Logf("%s%s", who, op.Desc)
+		return op.Name
+	}
+	m.r.Logf("%s%s -> %s", who, op.Desc, out)
+	// the first word of an outcome is its abstract part (goes into the fingerprint)
+	if i := strings.IndexByte(out, ' '); i >= 0 {
+		out = out[:i]
+	}
+	return op.Name + "/" + out
+}
+
+// Gen draws one mutation (transaction-time operations: everything here is journalled, except
+// staking records which are only drawn when AllowStakingRecords is set).
+func (m *Mutator) Gen(st *state.StateDB) *Op {
 	c := m.r.C
 	vw := m.ValidatorWeight
+	aw := m.AccountWeight
+	if aw == 0 {
+		aw = 1
+	}
 	weights := []int{
-		10, // 0 AddBalance
-		6,  // 1 SubBalance
-		3,  // 2 SetBalance
-		5,  // 3 SetNonce
-		4,  // 4 SetCode
-		10, // 5 SetState
-		3,  // 6 Suicide
-		3,  // 7 CreateAccount
-		4,  // 8 AddLog
-		3,  // 9 refund
-		2,  // 10 preimage
-		3 * vw, // 11 CreateValidator
-		6 * vw, // 12 update (PartialCopy + UpdateValidator)
-		3 * vw, // 13 in-place update of GetValidatorsForUpdate entries
-		5 * vw, // 14 UpdateDelegation
-		3 * vw, // 15 AddWithdrawRecord
-		2 * vw, // 16 RemoveWithdrawRecords
-		0,      // 17 staking record
+		10 * aw, // 0 AddBalance
+		6 * aw,  // 1 SubBalance
+		3 * aw,  // 2 AddBalance again (SetBalance has no production caller outside genesis)
+		5 * aw,  // 3 SetNonce
+		4 * aw,  // 4 SetCode
+		10 * aw, // 5 SetState
+		3 * aw,  // 6 Suicide
+		3 * aw,  // 7 CreateAccount
+		4 * aw,  // 8 AddLog
+		3 * aw,  // 9 refund
+		2 * aw,  // 10 preimage
+		3 * vw,  // 11 CreateValidator
+		6 * vw,  // 12 update (PartialCopy + UpdateValidator)
+		3 * vw,  // 13 in-place update of GetValidatorsForUpdate entries
+		5 * vw,  // 14 UpdateDelegation
+		3 * vw,  // 15 AddWithdrawRecord
+		2 * vw,  // 16 RemoveWithdrawRecords
+		0,       // 17 staking record
 	}
 	if m.AllowStakingRecords {
 		weights[17] = 3
 	}
+	if m.NoContracts {
+		weights[4], weights[5], weights[6], weights[7] = 0, 0, 0, 0
+	}
 	op := c.Weighted("op", weights)
 	switch op {
-	case 0:
+	case 0, 2:
 		a, v := pickAddr(c), amount(c)
-		st.AddBalance(a, v)
-		m.r.Logf("AddBalance %s %s", nm(a), v)
-		return "addbal"
+		return &Op{Name: "addbal", Desc: fmt.Sprintf("AddBalance %s %s", nm(a), v), Foot: []string{acctKey(a)},
+			Apply: func(st *state.StateDB) string { st.AddBalance(a, v); return "" }}
 	case 1:
 		a := pickAddr(c)
-		bal := st.GetBalance(a)
 		v := amount(c)
-		if v.Cmp(bal) > 0 {
-			v = new(big.Int).Set(bal)
+		// Transfer (core/evm.go) and the staking handlers debit an existing account (the sender of
+		// a message) after CanTransfer: never a non-existent account, never more than the balance
+		// (clamped when applied). A debit of a non-existent account would leave an object that
+		// no journal entry marks dirty (createObject journals resetObjectChange, SubBalance(0)
+		// nothing) — not a call production makes.
+		if !st.Exist(a) {
+			return noop("subbal-skip")
 		}
-		st.SubBalance(a, v)
-		m.r.Logf("SubBalance %s %s", nm(a), v)
-		return "subbal"
-	case 2:
-		// (SetBalance has no production caller outside genesis; balances move by Add/Sub)
-		a, v := pickAddr(c), amount(c)
-		st.AddBalance(a, v)
-		m.r.Logf("AddBalance %s %s", nm(a), v)
-		return "addbal"
+		return &Op{Name: "subbal", Desc: fmt.Sprintf("SubBalance %s min(balance,%s)", nm(a), v), Foot: []string{acctKey(a)},
+			Apply: func(st *state.StateDB) string {
+				if !st.Exist(a) {
+					return "skip"
+				}
+				w := v
+				if bal := st.GetBalance(a); w.Cmp(bal) > 0 {
+					w = new(big.Int).Set(bal)
+				}
+				st.SubBalance(a, w)
+				return "ok " + w.String()
+			}}
 	case 3:
 		// nonces only ever advance by one (state_transition.go, evm.go:336)
 		a := pickContractish(c)
-		n := st.GetNonce(a) + 1
-		st.SetNonce(a, n)
-		m.r.Logf("SetNonce %s %d", nm(a), n)
-		return "setnonce"
+		return &Op{Name: "setnonce", Desc: fmt.Sprintf("SetNonce %s nonce+1", nm(a)), Foot: []string{acctKey(a)},
+			Apply: func(st *state.StateDB) string {
+				n := st.GetNonce(a) + 1
+				st.SetNonce(a, n)
+				return "ok " + fmt.Sprint(n)
+			}}
 	case 4:
 		// code is set once, on an account under construction (evm.go:371-380)
 		a := pickContractish(c)
 		if st.GetNonce(a) == 0 || st.GetCodeSize(a) != 0 {
-			return "setcode-skip"
+			return noop("setcode-skip")
 		}
-		code := codes[1+c.Intn("code", len(codes)-1)]
-		st.SetCode(a, code)
-		m.r.Logf("SetCode %s %x", nm(a), code)
-		return "setcode"
+		var code []byte
+		if m.BigCodes {
+			if i := c.Intn("code", len(codes)-1+nBigCodes); i < len(codes)-1 {
+				code = codes[1+i]
+			} else {
+				code = bigCode(i - (len(codes) - 1))
+			}
+		} else {
+			code = codes[1+c.Intn("code", len(codes)-1)]
+		}
+		return &Op{Name: "setcode", Desc: fmt.Sprintf("SetCode %s len=%d %x…", nm(a), len(code), code[:2]), Foot: []string{acctKey(a)},
+			Apply: func(st *state.StateDB) string {
+				if st.GetNonce(a) == 0 || st.GetCodeSize(a) != 0 {
+					return "skip"
+				}
+				st.SetCode(a, code)
+				return ""
+			}}
 	case 5:
 		// SSTORE runs in the context of a contract or of an account under construction
 		a := pickContractish(c)
 		if st.GetNonce(a) == 0 && st.GetCodeSize(a) == 0 {
-			return "setstate-skip"
+			return noop("setstate-skip")
 		}
 		k := common.BigToHash(big.NewInt(int64(c.Intn("slot", nSlots))))
 		v := common.BigToHash(big.NewInt(int64(c.Intn("val", 4))))
-		st.SetState(a, k, v)
-		m.r.Logf("SetState %s %s=%s", nm(a), k.Hex()[60:], v.Hex()[60:])
-		return "setstate"
+		return &Op{Name: "setstate", Desc: fmt.Sprintf("SetState %s %s=%s", nm(a), k.Hex()[60:], v.Hex()[60:]), Foot: []string{acctKey(a)},
+			Apply: func(st *state.StateDB) string {
+				if st.GetNonce(a) == 0 && st.GetCodeSize(a) == 0 {
+					return "skip"
+				}
+				st.SetState(a, k, v)
+				return ""
+			}}
 	case 6:
 		a := pickContractish(c)
-		ok := st.Suicide(a)
-		m.r.Logf("Suicide %s -> %v", nm(a), ok)
-		return "suicide"
+		return &Op{Name: "suicide", Desc: fmt.Sprintf("Suicide %s", nm(a)), Foot: []string{acctKey(a)},
+			Apply: func(st *state.StateDB) string { return fmt.Sprint(st.Suicide(a)) }}
 	case 7:
 		// EVM create (evm.go:338-347): refused on collision, else CreateAccount + SetNonce(1)
 		a := pickContractish(c)
-		if ch := st.GetCodeHash(a); st.GetNonce(a) != 0 || (ch != (common.Hash{}) && ch != emptyCodeHash) {
-			return "createacct-collision"
+		collides := func(st *state.StateDB) bool {
+			ch := st.GetCodeHash(a)
+			return st.GetNonce(a) != 0 || (ch != (common.Hash{}) && ch != emptyCodeHash)
 		}
-		st.CreateAccount(a)
-		st.SetNonce(a, 1)
-		m.r.Logf("CreateAccount+SetNonce(1) %s", nm(a))
-		return "createacct"
+		if collides(st) {
+			return noop("createacct-collision")
+		}
+		return &Op{Name: "createacct", Desc: fmt.Sprintf("CreateAccount+SetNonce(1) %s", nm(a)), Foot: []string{acctKey(a)},
+			Apply: func(st *state.StateDB) string {
+				if collides(st) {
+					return "collision"
+				}
+				st.CreateAccount(a)
+				st.SetNonce(a, 1)
+				return ""
+			}}
 	case 8:
 		a := pickAddr(c)
-		st.AddLog(&types.Log{Address: a, Topics: []common.Hash{common.BigToHash(big.NewInt(int64(c.Intn("topic", 3))))}, Data: []byte{byte(c.Intn("logdata", 256))}, BlockNumber: m.height})
-		m.r.Logf("AddLog %s", nm(a))
-		return "addlog"
+		topic := common.BigToHash(big.NewInt(int64(c.Intn("topic", 3))))
+		data := []byte{byte(c.Intn("logdata", 256))}
+		h := m.height
+		return &Op{Name: "addlog", Desc: fmt.Sprintf("AddLog %s", nm(a)),
+			Apply: func(st *state.StateDB) string {
+				st.AddLog(&types.Log{Address: a, Topics: []common.Hash{topic}, Data: append([]byte(nil), data...), BlockNumber: h})
+				return ""
+			}}
 	case 9:
 		if c.Chance("subrefund", 1, 3) && st.GetRefund() > 0 {
 			g := uint64(c.Intn("g", int(st.GetRefund())+1))
-			st.SubRefund(g)
-			m.r.Logf("SubRefund %d", g)
-			return "subrefund"
+			return &Op{Name: "subrefund", Desc: fmt.Sprintf("SubRefund min(refund,%d)", g), Foot: []string{"refund"},
+				Apply: func(st *state.StateDB) string {
+					w := g
+					if w > st.GetRefund() {
+						w = st.GetRefund()
+					}
+					st.SubRefund(w)
+					return ""
+				}}
 		}
 		g := uint64(c.Intn("g", 5000))
-		st.AddRefund(g)
-		m.r.Logf("AddRefund %d", g)
-		return "addrefund"
+		return &Op{Name: "addrefund", Desc: fmt.Sprintf("AddRefund %d", g), Foot: []string{"refund"},
+			Apply: func(st *state.StateDB) string { st.AddRefund(g); return "" }}
 	case 10:
 		m.preimageN++
 		p := []byte(fmt.Sprintf("preimage-%d", c.Intn("pre", 4)))
-		st.AddPreimage(crypto.Keccak256Hash(p), p)
-		m.r.Logf("AddPreimage %s", p)
-		return "preimage"
+		return &Op{Name: "preimage", Desc: fmt.Sprintf("AddPreimage %s", p),
+			Apply: func(st *state.StateDB) string { st.AddPreimage(crypto.Keccak256Hash(p), p); return "" }}
 	case 11:
-		return m.createValidator(st)
+		return m.genCreateValidator(st)
 	case 12:
-		return m.updateValidatorCopy(st)
+		return m.genUpdateValidatorCopy(st)
 	case 13:
-		return m.updateValidatorsInPlace(st)
+		return m.genUpdateValidatorsInPlace(st)
 	case 14:
-		return m.updateDelegation(st)
+		return m.genUpdateDelegation(st)
 	case 15:
-		return m.addWithdraw(st)
+		return m.genAddWithdraw(st)
 	case 16:
-		return m.removeWithdraw(st)
+		return m.genRemoveWithdraw(st)
 	case 17:
-		return m.stakingRecord(st)
+		return m.genStakingRecord(st)
 	}
-	return "noop"
+	return noop("noop")
 }
 
-// createValidator imitates teCreate (staking/take_effect_handler.go:83) and genesis (core/genesis.go:269).
-func (m *Mutator) createValidator(st *state.StateDB) string {
+const nBigCodes = 6
+
+// bigCode returns the i-th large code blob (24 KiB, the EVM's size limit; distinct per i).
+func bigCode(i int) []byte {
+	b := make([]byte, 24576)
+	for j := range b {
+		b[j] = byte(j*31 + i*7 + 1)
+	}
+	b[0], b[1] = 0x60, byte(0x80+i)
+	return b
+}
+
+// genCreateValidator imitates teCreate (staking/take_effect_handler.go:83) and genesis (core/genesis.go:269).
+func (m *Mutator) genCreateValidator(st *state.StateDB) *Op {
 	c := m.r.C
 	k := valKeys[c.Intn("valkey", len(valKeys))]
 	role := params.ValidatorRole(1 + c.Intn("role", 3))
@@ -205,142 +343,236 @@ func (m *Mutator) createValidator(st *state.StateDB) string {
 	if c.Chance("online", 1, 2) {
 		status = params.ValidatorOnline
 	}
-	v := st.CreateValidator(fmt.Sprintf("v%x", k.addr[:2]), accounts[c.Intn("op", len(accounts))], accounts[c.Intn("cb", len(accounts))], role, k.pub, k.bls, tok, params.YOUToStake(tok), uint16(c.Intn("accept", 2)), uint16(c.Intn("comm", 10001)), uint16(c.Intn("risk", 10001)), status)
-	m.r.Logf("CreateValidator %s role=%d tok=%s status=%d -> created=%v", nm(k.addr), role, tok, status, v != nil)
-	if v == nil {
-		return "createval-exists"
-	}
-	return "createval"
+	name := fmt.Sprintf("v%x", k.addr[:2])
+	operator, coinbase := accounts[c.Intn("op", len(accounts))], accounts[c.Intn("cb", len(accounts))]
+	accept, comm, risk := uint16(c.Intn("accept", 2)), uint16(c.Intn("comm", 10001)), uint16(c.Intn("risk", 10001))
+	return &Op{Name: "createval", Desc: fmt.Sprintf("CreateValidator %s role=%d tok=%s status=%d", nm(k.addr), role, tok, status), Foot: []string{valKeyOf(k.addr)},
+		Apply: func(st *state.StateDB) string {
+			v := st.CreateValidator(name, operator, coinbase, role, k.pub, k.bls, tok, params.YOUToStake(tok), accept, comm, risk, status)
+			if v == nil {
+				return "exists"
+			}
+			return "created"
+		}}
 }
 
-// updateValidatorCopy imitates the `old := Get…; newVal := old.PartialCopy(); …;
+// genUpdateValidatorCopy imitates the `old := Get…; newVal := old.PartialCopy(); …;
 // UpdateValidator(newVal, old)` pattern of teUpdate/teDeposit/teWithdraw/teChangeStatus
 // (take_effect_handler.go:91-213), settleValidatorRewards and slash (endblock.go:331,421,480; slash.go:351).
-func (m *Mutator) updateValidatorCopy(st *state.StateDB) string {
+// deposit and withdraw keep Token == SelfToken + Σ delegations and the stakes exactly the way
+// teDeposit/teWithdraw do.
+func (m *Mutator) genUpdateValidatorCopy(st *state.StateDB) *Op {
 	c := m.r.C
 	vals := existingValidators(st)
 	if len(vals) == 0 {
-		return "updval-none"
+		return noop("updval-none")
 	}
-	old := st.GetValidatorByMainAddr(vals[c.Intn("which", len(vals))].MainAddress())
-	if old == nil {
-		return "updval-none"
+	addr := vals[c.Intn("which", len(vals))].MainAddress()
+	if st.GetValidatorByMainAddr(addr) == nil {
+		return noop("updval-none")
 	}
-	nv := old.PartialCopy()
 	kind := c.Intn("updkind", 7)
+	var mutate func(nv *state.Validator)
+	var what string
+	h := m.height
 	switch kind {
 	case 0: // deposit (teDeposit)
 		v := amount(c)
-		nv.SelfToken.Add(nv.SelfToken, v)
-		ns := params.YOUToStake(nv.SelfToken)
-		delta := new(big.Int).Sub(ns, nv.SelfStake)
-		nv.SelfStake.Set(ns)
-		nv.Token.Add(nv.Token, v)
-		nv.Stake.Add(nv.Stake, delta)
-	case 1: // withdraw (teWithdraw), possibly everything
-		w := amount(c)
-		if w.Cmp(nv.SelfToken) > 0 || c.Chance("all", 1, 4) {
-			w = new(big.Int).Set(nv.SelfToken)
+		what = "deposit " + v.String()
+		mutate = func(nv *state.Validator) {
+			nv.SelfToken.Add(nv.SelfToken, v)
+			ns := params.YOUToStake(nv.SelfToken)
+			delta := new(big.Int).Sub(ns, nv.SelfStake)
+			nv.SelfStake.Set(ns)
+			nv.Token.Add(nv.Token, v)
+			nv.Stake.Add(nv.Stake, delta)
 		}
-		nv.SelfToken.Sub(nv.SelfToken, w)
-		ns := params.YOUToStake(nv.SelfToken)
-		delta := new(big.Int).Sub(nv.SelfStake, ns)
-		nv.SelfStake.Set(ns)
-		nv.Token.Sub(nv.Token, w)
-		nv.Stake.Sub(nv.Stake, delta)
-		if c.Chance("force-offline", 1, 3) {
-			nv.Status = params.ValidatorOffline
+	case 1: // withdraw (teWithdraw), possibly everything
+		w0 := amount(c)
+		all := c.Chance("all", 1, 4)
+		off := c.Chance("force-offline", 1, 3)
+		what = fmt.Sprintf("withdraw %s all=%v offline=%v", w0, all, off)
+		mutate = func(nv *state.Validator) {
+			w := w0
+			if w.Cmp(nv.SelfToken) > 0 || all {
+				w = new(big.Int).Set(nv.SelfToken)
+			}
+			nv.SelfToken.Sub(nv.SelfToken, w)
+			ns := params.YOUToStake(nv.SelfToken)
+			delta := new(big.Int).Sub(nv.SelfStake, ns)
+			nv.SelfStake.Set(ns)
+			nv.Token.Sub(nv.Token, w)
+			nv.Stake.Sub(nv.Stake, delta)
+			if off {
+				nv.Status = params.ValidatorOffline
+			}
 		}
 	case 2: // status (teChangeStatus)
-		if nv.Status == params.ValidatorOnline {
-			nv.Status = params.ValidatorOffline
-		} else {
-			nv.Status = params.ValidatorOnline
+		what = "toggle-status"
+		mutate = func(nv *state.Validator) {
+			if nv.Status == params.ValidatorOnline {
+				nv.Status = params.ValidatorOffline
+			} else {
+				nv.Status = params.ValidatorOnline
+			}
+			nv.UpdateLastActive(h)
 		}
-		nv.UpdateLastActive(m.height)
 	case 3: // descriptive fields (teUpdate)
-		nv.Name = fmt.Sprintf("n%d", c.Intn("name", 4))
-		nv.Coinbase = accounts[c.Intn("cb", len(accounts))]
-		nv.CommissionRate = uint16(c.Intn("comm", 10001))
-		nv.AcceptDelegation = uint16(c.Intn("accept", 2))
+		name := fmt.Sprintf("n%d", c.Intn("name", 4))
+		cb := accounts[c.Intn("cb", len(accounts))]
+		comm := uint16(c.Intn("comm", 10001))
+		accept := uint16(c.Intn("accept", 2))
+		what = "describe " + name
+		mutate = func(nv *state.Validator) {
+			nv.Name = name
+			nv.Coinbase = cb
+			nv.CommissionRate = comm
+			nv.AcceptDelegation = accept
+		}
 	case 4: // rewards (endblock.go:188-211)
-		nv.AddTotalRewards(amount(c))
+		v := amount(c)
+		what = "rewards " + v.String()
+		mutate = func(nv *state.Validator) { nv.AddTotalRewards(v) }
 	case 5: // settle (endblock.go:421)
-		nv.RewardsDistributable = new(big.Int)
-		nv.RewardsLastSettled = m.height
-	case 6: // penalty (slash.go:346-369): expel and set offline
-		nv.Expelled = true
-		nv.ExpelExpired = m.height + 10
-		nv.Status = params.ValidatorOffline
-		nv.LastInactive = m.height
+		what = "settle"
+		mutate = func(nv *state.Validator) {
+			nv.RewardsDistributable = new(big.Int)
+			nv.RewardsLastSettled = h
+		}
+	case 6: // expel (doPenalize without amount, slash.go:346-369): expel and set offline
+		what = "expel"
+		mutate = func(nv *state.Validator) {
+			nv.Expelled = true
+			nv.ExpelExpired = h + 10
+			nv.Status = params.ValidatorOffline
+			nv.LastInactive = h
+		}
 	}
-	ok := st.UpdateValidator(nv, old)
-	m.r.Logf("UpdateValidator(copy) %s kind=%d tok=%s stake=%s status=%d -> %v", nm(old.MainAddress()), kind, nv.Token, nv.Stake, nv.Status, ok)
-	return fmt.Sprintf("updval%d", kind)
+	return &Op{Name: fmt.Sprintf("updval%d", kind), Desc: fmt.Sprintf("UpdateValidator(copy) %s %s", nm(addr), what), Foot: []string{valKeyOf(addr)},
+		Apply: func(st *state.StateDB) string {
+			old := st.GetValidatorByMainAddr(addr)
+			if old == nil {
+				return "none"
+			}
+			nv := old.PartialCopy()
+			mutate(nv)
+			ok := st.UpdateValidator(nv, old)
+			abs := "ok"
+			if nv.Token.Sign() == 0 {
+				abs = "ok-zero-token"
+			}
+			return fmt.Sprintf("%s tok=%s stake=%s status=%d %v", abs, nv.Token, nv.Stake, nv.Status, ok)
+		}}
 }
 
-// updateValidatorsInPlace imitates `all := GetValidatorsForUpdate(); old := val.PartialCopy();
+type inPlaceAct struct {
+	kind int
+	amt  *big.Int
+}
+
+// genUpdateValidatorsInPlace imitates `all := GetValidatorsForUpdate(); old := val.PartialCopy();
 // mutate val; UpdateValidator(val, old)` (endblock.go:130-135, slash_youv5.go:50-67).
-func (m *Mutator) updateValidatorsInPlace(st *state.StateDB) string {
+func (m *Mutator) genUpdateValidatorsInPlace(st *state.StateDB) *Op {
 	c := m.r.C
 	all := st.GetValidatorsForUpdate()
-	n := 0
+	plan := map[common.Address]inPlaceAct{}
+	var foot, desc []string
 	for _, val := range all {
 		if !c.Chance("touch", 1, 2) {
 			continue
 		}
-		old := val.PartialCopy()
-		switch c.Intn("inplace-kind", 3) {
-		case 0:
-			val.UpdateLastActive(m.height)
-		case 1:
-			if val.Status == params.ValidatorOnline {
-				val.Status = params.ValidatorOffline
-				val.LastInactive = m.height
-			}
-		case 2:
-			val.AddTotalRewards(amount(c))
+		act := inPlaceAct{kind: c.Intn("inplace-kind", 3)}
+		if act.kind == 2 {
+			act.amt = amount(c)
 		}
-		st.UpdateValidator(val, old)
-		n++
+		plan[val.MainAddress()] = act
+		foot = append(foot, valKeyOf(val.MainAddress()))
+		desc = append(desc, fmt.Sprintf("%s:%d", nm(val.MainAddress()), act.kind))
 	}
-	m.r.Logf("UpdateValidator(in-place) n=%d", n)
-	return "updinplace"
+	h := m.height
+	return &Op{Name: "updinplace", Desc: "UpdateValidator(in-place) " + strings.Join(desc, ","), Foot: foot,
+		Apply: func(st *state.StateDB) string {
+			n := 0
+			for _, val := range st.GetValidatorsForUpdate() {
+				act, ok := plan[val.MainAddress()]
+				if !ok {
+					continue
+				}
+				old := val.PartialCopy()
+				switch act.kind {
+				case 0:
+					val.UpdateLastActive(h)
+				case 1:
+					if val.Status == params.ValidatorOnline {
+						val.Status = params.ValidatorOffline
+						val.LastInactive = h
+					}
+				case 2:
+					val.AddTotalRewards(act.amt)
+				}
+				st.UpdateValidator(val, old)
+				n++
+			}
+			return fmt.Sprintf("n=%d", n)
+		}}
 }
 
-// updateDelegation imitates teDelegationAdd/teDelegationSub (take_effect_handler.go:264,314).
+// genUpdateDelegation imitates teDelegationAdd/teDelegationSub (take_effect_handler.go:264,314).
 // The delegator is an account that has sent a transaction (nonce >= 1), as in production.
-func (m *Mutator) updateDelegation(st *state.StateDB) string {
+func (m *Mutator) genUpdateDelegation(st *state.StateDB) *Op {
 	c := m.r.C
 	vals := existingValidators(st)
 	if len(vals) == 0 {
-		return "deleg-none"
+		return noop("deleg-none")
 	}
-	val := st.GetValidatorByMainAddr(vals[c.Intn("which", len(vals))].MainAddress())
+	vaddr := vals[c.Intn("which", len(vals))].MainAddress()
+	val := st.GetValidatorByMainAddr(vaddr)
 	if val == nil {
-		return "deleg-none"
+		return noop("deleg-none")
 	}
 	d := delegators[c.Intn("delegator", len(delegators))]
-	if st.GetNonce(d) == 0 {
-		st.SetNonce(d, 1)
-	}
-	var delta *big.Int
+	sub, all := false, false
+	var w *big.Int
 	if df := val.GetDelegationFrom(d); df != nil && c.Chance("sub", 1, 2) {
-		w := amount(c)
-		if w.Cmp(df.Token) > 0 || c.Chance("all", 1, 3) {
-			w = new(big.Int).Set(df.Token)
-		}
-		delta = new(big.Int).Neg(w)
+		sub = true
+		w = amount(c)
+		all = c.Chance("all", 1, 3)
 	} else {
-		delta = tokens(int64(1 + c.Intn("dtokens", 500)))
+		w = tokens(int64(1 + c.Intn("dtokens", 500)))
 	}
-	nv, _, _, flag := st.UpdateDelegation(d, val, delta)
-	m.r.Logf("UpdateDelegation %s -> %s delta=%s flag=%d tok=%s", nm(d), nm(val.MainAddress()), delta, flag, nv.Token)
-	return fmt.Sprintf("deleg%d", flag)
+	desc := fmt.Sprintf("UpdateDelegation %s -> %s +%s", nm(d), nm(vaddr), w)
+	if sub {
+		desc = fmt.Sprintf("UpdateDelegation %s -> %s -min(%s,all=%v)", nm(d), nm(vaddr), w, all)
+	}
+	return &Op{Name: "deleg", Desc: desc, Foot: []string{valKeyOf(vaddr), acctKey(d)},
+		Apply: func(st *state.StateDB) string {
+			val := st.GetValidatorByMainAddr(vaddr)
+			if val == nil {
+				return "noval"
+			}
+			if st.GetNonce(d) == 0 {
+				st.SetNonce(d, 1)
+			}
+			delta := w
+			if sub {
+				// teDelegationSub clamps to what is there
+				df := val.GetDelegationFrom(d)
+				if df == nil {
+					return "nodeleg"
+				}
+				x := w
+				if x.Cmp(df.Token) > 0 || all {
+					x = new(big.Int).Set(df.Token)
+				}
+				delta = new(big.Int).Neg(x)
+			}
+			nv, _, _, flag := st.UpdateDelegation(d, val, delta)
+			return fmt.Sprintf("flag=%d tok=%s", flag, nv.Token)
+		}}
 }
 
-// addWithdraw imitates addWithdrawLog (take_effect_handler.go:327-350).
-func (m *Mutator) addWithdraw(st *state.StateDB) string {
+// genAddWithdraw imitates addWithdrawLog (take_effect_handler.go:327-350).
+func (m *Mutator) genAddWithdraw(st *state.StateDB) *Op {
 	c := m.r.C
 	m.wdNonce++
 	rec := state.NewWithdrawRecord()
@@ -354,17 +586,20 @@ func (m *Mutator) addWithdraw(st *state.StateDB) string {
 	rec.CreationHeight = m.height
 	rec.CompletionHeight = m.height + uint64(c.Intn("delay", 5))
 	rec.TxHash = common.BigToHash(big.NewInt(int64(m.wdNonce)))
-	st.AddWithdrawRecord(rec)
-	m.r.Logf("AddWithdrawRecord op=%s nonce=%d amt=%s", nm(rec.Operator), rec.Nonce, v)
-	return "addwd"
+	return &Op{Name: "addwd", Desc: fmt.Sprintf("AddWithdrawRecord op=%s nonce=%d val=%s amt=%s", nm(rec.Operator), rec.Nonce, nm(rec.Validator), v), Foot: []string{"queue"},
+		Apply: func(st *state.StateDB) string {
+			// every state gets its own record object, as it would from its own handler run
+			st.AddWithdrawRecord(rec.DeepCopy())
+			return ""
+		}}
 }
 
-// removeWithdraw imitates processWithdrawQueue (endblock.go:544): ascending index list.
-func (m *Mutator) removeWithdraw(st *state.StateDB) string {
+// genRemoveWithdraw imitates processWithdrawQueue (endblock.go:544): ascending index list.
+func (m *Mutator) genRemoveWithdraw(st *state.StateDB) *Op {
 	c := m.r.C
 	q := st.GetWithdrawQueue()
 	if q == nil || q.Len() == 0 {
-		return "rmwd-none"
+		return noop("rmwd-none")
 	}
 	var idx []int
 	for i := 0; i < q.Len(); i++ {
@@ -373,27 +608,251 @@ func (m *Mutator) removeWithdraw(st *state.StateDB) string {
 		}
 	}
 	if len(idx) == 0 {
-		return "rmwd-none"
+		return noop("rmwd-none")
 	}
-	st.RemoveWithdrawRecords(idx)
-	m.r.Logf("RemoveWithdrawRecords %v", idx)
-	return "rmwd"
+	return &Op{Name: "rmwd", Desc: fmt.Sprintf("RemoveWithdrawRecords %v", idx), Foot: []string{"queue"},
+		Apply: func(st *state.StateDB) string {
+			n := st.GetWithdrawQueue().Len()
+			var use []int
+			for _, i := range idx {
+				if i < n {
+					use = append(use, i)
+				}
+			}
+			if len(use) == 0 {
+				return "none"
+			}
+			st.RemoveWithdrawRecords(use)
+			return ""
+		}}
 }
 
-// stakingRecord imitates the staking handlers (handler.go:94,194; delegation_handler.go:100,198).
+// stakingRecord applies a staking-record write immediately (C09 uses it outside snapshot windows).
 func (m *Mutator) stakingRecord(st *state.StateDB) string {
+	return m.Run(m.genStakingRecord(st), st)
+}
+
+// genStakingRecord imitates the staking handlers (handler.go:94,194; delegation_handler.go:100,198).
+func (m *Mutator) genStakingRecord(st *state.StateDB) *Op {
 	c := m.r.C
 	v := valKeys[c.Intn("valkey", len(valKeys))].addr
 	if c.Chance("delegation-record", 1, 2) {
 		d := delegators[c.Intn("delegator", len(delegators))]
-		if !st.PendingRelationshipExist(d, v) {
-			st.AddPendingRelationship(d, v)
-		}
-		st.AddStakingRecord(d, v, common.BigToHash(big.NewInt(int64(c.Intn("txh", 1000)+1))), amount(c))
-		m.r.Logf("AddStakingRecord d=%s v=%s", nm(d), nm(v))
-		return "stakerec-d"
+		txh := common.BigToHash(big.NewInt(int64(c.Intn("txh", 1000) + 1)))
+		amt := amount(c)
+		return &Op{Name: "stakerec-d", Desc: fmt.Sprintf("AddStakingRecord d=%s v=%s tx=%s val=%s", nm(d), nm(v), nm(txh), amt),
+			Foot: []string{"srec:" + nm(d) + nm(v), "pendingr"},
+			Apply: func(st *state.StateDB) string {
+				if !st.PendingRelationshipExist(d, v) {
+					st.AddPendingRelationship(d, v)
+				}
+				st.AddStakingRecord(d, v, txh, amt)
+				return ""
+			}}
 	}
-	st.AddStakingRecord(common.Address{}, v, common.BigToHash(big.NewInt(int64(c.Intn("txh", 1000)+1))), amount(c))
-	m.r.Logf("AddStakingRecord v=%s", nm(v))
-	return "stakerec-v"
+	txh := common.BigToHash(big.NewInt(int64(c.Intn("txh", 1000) + 1)))
+	amt := amount(c)
+	return &Op{Name: "stakerec-v", Desc: fmt.Sprintf("AddStakingRecord v=%s tx=%s val=%s", nm(v), nm(txh), amt), Foot: []string{"srec:" + nm(v)},
+		Apply: func(st *state.StateDB) string {
+			st.AddStakingRecord(common.Address{}, v, txh, amt)
+			return ""
+		}}
+}
+
+// ---- end-of-block operations (staking EndBlock): never inside a snapshot window ----
+
+var penaltyTo = common.BytesToAddress([]byte{0xee, 0x01})
+
+// GenEndBlock draws one operation of the kind the staking module performs in EndBlock, after
+// the last transaction of a block and before the block's IntermediateRoot. None of them is
+// ever reverted in production and some are not journalled at all (statistics' reward pools,
+// in-place edits of withdraw records), so C09 does not use them.
+func (m *Mutator) GenEndBlock(st *state.StateDB) *Op {
+	c := m.r.C
+	switch c.Weighted("endblock-op", []int{4, 4, 3, 3, 3, 3, 2}) {
+	case 0:
+		return m.genUpdateValidatorsInPlace(st)
+	case 1:
+		return m.genUpdateValidatorCopy(st)
+	case 2:
+		return m.genPenalty(st)
+	case 3:
+		return m.genStatRewards(st)
+	case 4:
+		return m.genProcessQueue(st)
+	case 5:
+		return m.genUpdateDelegation(st)
+	default:
+		return m.genRecoverExpelled(st)
+	}
+}
+
+// genPenalty imitates doPenalize/takePenalty (slash.go:346-369, 372-500): first from the
+// validator's unfinished withdraw records (edited in place), then from the self deposit and from
+// every delegation (the delegation entries of the PartialCopy are edited in place and put back
+// with UpdateDelegationFrom), status offline + expelled, UpdateValidator(newVal, val), and the
+// total credited to the penalty account. The amounts are a percentage of each component (the
+// protocol's fractions are 1 % and 2 %), so no component is emptied; Token/Stake are adjusted
+// by exactly what each component loses, as takePenalty's updateCounter does.
+func (m *Mutator) genPenalty(st *state.StateDB) *Op {
+	c := m.r.C
+	vals := existingValidators(st)
+	if len(vals) == 0 {
+		return noop("penalty-none")
+	}
+	addr := vals[c.Intn("which", len(vals))].MainAddress()
+	pct := int64([]int{1, 2, 10, 50}[c.Intn("pct", 4)])
+	h := m.height
+	return &Op{Name: "penalty", Desc: fmt.Sprintf("Penalty %s %d%%", nm(addr), pct), Foot: []string{valKeyOf(addr), "queue", acctKey(penaltyTo)},
+		Apply: func(st *state.StateDB) string {
+			val := st.GetValidatorByMainAddr(addr)
+			if val == nil {
+				return "none"
+			}
+			total := new(big.Int)
+			part := func(x *big.Int) *big.Int {
+				return new(big.Int).Div(new(big.Int).Mul(x, big.NewInt(pct)), big.NewInt(100))
+			}
+			for _, rec := range st.GetWithdrawQueue().Records {
+				if rec.Validator != addr || rec.Finished != 0 {
+					continue
+				}
+				p := part(rec.FinalBalance)
+				rec.FinalBalance.Sub(rec.FinalBalance, p)
+				total.Add(total, p)
+			}
+			nv := val.PartialCopy()
+			take := func(tok, stk *big.Int) {
+				p := part(tok)
+				if p.Sign() == 0 {
+					return
+				}
+				newTok := new(big.Int).Sub(tok, p)
+				newStk := params.YOUToStake(newTok)
+				delta := new(big.Int).Sub(stk, newStk)
+				tok.Set(newTok)
+				stk.Set(newStk)
+				nv.Token.Sub(nv.Token, p)
+				nv.Stake.Sub(nv.Stake, delta)
+				total.Add(total, p)
+			}
+			take(nv.SelfToken, nv.SelfStake)
+			var upd []*state.DelegationFrom
+			for _, d := range nv.Delegations {
+				before := new(big.Int).Set(d.Token)
+				take(d.Token, d.Stake)
+				if before.Cmp(d.Token) != 0 {
+					upd = append(upd, d)
+				}
+			}
+			for _, d := range upd {
+				nv.UpdateDelegationFrom(d)
+			}
+			nv.Status = params.ValidatorOffline
+			nv.Expelled = true
+			if e := h + 10; e > nv.ExpelExpired {
+				nv.ExpelExpired = e
+			}
+			nv.LastInactive = h
+			st.UpdateValidator(nv, val)
+			st.AddBalance(penaltyTo, total)
+			return fmt.Sprintf("applied total=%s tok=%s stake=%s", total, nv.Token, nv.Stake)
+		}}
+}
+
+// genRecoverExpelled imitates recoverFromExpiredExpelling (slash_youv5.go:57-63).
+func (m *Mutator) genRecoverExpelled(st *state.StateDB) *Op {
+	return &Op{Name: "recover", Desc: "RecoverExpelled (in-place, all expelled)", Foot: []string{"val:*"},
+		Apply: func(st *state.StateDB) string {
+			n := 0
+			for _, val := range st.GetValidatorsForUpdate() {
+				if !val.Expelled {
+					continue
+				}
+				old := val.PartialCopy()
+				val.Expelled = false
+				val.ExpelExpired = 0
+				st.UpdateValidator(val, old)
+				n++
+			}
+			return fmt.Sprintf("n=%d", n)
+		}}
+}
+
+// genStatRewards imitates rewardsToPool / distributeRewards (endblock.go:143-236, 343-357): the
+// reward pools kept inside the statistics object are edited directly (no journal).
+func (m *Mutator) genStatRewards(st *state.StateDB) *Op {
+	c := m.r.C
+	role := params.ValidatorRole(1 + c.Intn("role", 3))
+	kind := c.Intn("statrew-kind", 3)
+	amt := amount(c)
+	return &Op{Name: fmt.Sprintf("statrew%d", kind), Desc: fmt.Sprintf("StatRewards kind=%d role=%d amt=%s", kind, role, amt), Foot: []string{"statrew"},
+		Apply: func(st *state.StateDB) string {
+			stat, err := st.GetValidatorsStat()
+			if err != nil {
+				return "err"
+			}
+			switch kind {
+			case 0:
+				stat.GetByRole(role).AddRewards(amt)
+			case 1:
+				stat.GetByKind(params.KindValidator).SetRewardsResidue(amt)
+			case 2:
+				stat.GetByRole(role).ResetRewards(amt)
+			}
+			return ""
+		}}
+}
+
+// genProcessQueue imitates processWithdrawQueue (endblock.go:488-545): matured records are
+// marked finished in place and paid out, finished ones beyond retention are removed.
+func (m *Mutator) genProcessQueue(st *state.StateDB) *Op {
+	c := m.r.C
+	q := st.GetWithdrawQueue()
+	if q == nil || q.Len() == 0 {
+		return noop("procq-none")
+	}
+	n := q.Len()
+	finish := make([]bool, n)
+	discard := make([]bool, n)
+	foot := []string{"queue"}
+	for i, rec := range q.Records {
+		finish[i] = c.Chance("finish", 1, 2)
+		discard[i] = c.Chance("discard", 1, 2)
+		if finish[i] {
+			foot = append(foot, acctKey(rec.Recipient))
+		}
+	}
+	sort.Strings(foot)
+	return &Op{Name: "procq", Desc: fmt.Sprintf("ProcessWithdrawQueue finish=%v discard=%v", finish, discard), Foot: uniq(foot),
+		Apply: func(st *state.StateDB) string {
+			q := st.GetWithdrawQueue()
+			var rm []int
+			for i, rec := range q.Records {
+				if i >= n {
+					break
+				}
+				if finish[i] && rec.Finished == 0 {
+					rec.Finished = 1
+					st.AddBalance(rec.Recipient, new(big.Int).Set(rec.FinalBalance))
+				}
+				if rec.Finished == 1 && discard[i] {
+					rm = append(rm, i)
+				}
+			}
+			if len(rm) > 0 {
+				st.RemoveWithdrawRecords(rm)
+			}
+			return fmt.Sprintf("removed=%d", len(rm))
+		}}
+}
+
+func uniq(s []string) []string {
+	out := s[:0]
+	for i, x := range s {
+		if i == 0 || x != s[i-1] {
+			out = append(out, x)
+		}
+	}
+	return out
 }
